@@ -88,6 +88,68 @@ func famC12(r *Run) {
 		r.count("conc:expressions")
 		r.addTree("G-conc", t, text, deepCopy(root), modeFor(text, root))
 	}
+	// targeted: functions that reorder, merge or collect, applied to parts of one shared
+	// document by some goroutines while others read the same parts
+	var shared interface{}
+	json.Unmarshal([]byte(`{"people":[{"name":"carol","k":3},{"name":"alice","k":1},{"name":"dave","k":4},{"name":"bob","k":2}],
+	 "nums":[3,1,2],"s":["q","p","r"],"o":{"b":1,"a":2},"o2":{"c":3},"nested":[[3,1],[2]]}`), &shared)
+	pristine := deepCopy(shared)
+	pairs := [][2]string{
+		{"sort_by(people, &name)[0].name", "people[0].name"}, {"sort_by(people, &k)[0].k", "people[0].k"},
+		{"sort(s)", "s[0]"}, {"sort(nums)", "nums"}, {"reverse(people)[0].name", "people[0].name"},
+		{"merge(o, o2)", "o"}, {"merge(o2, o)", "o2"}, {"max_by(people, &name).name", "people[*].name"},
+		{"min_by(people, &k).k", "people[-1].k"}, {"map(&name, people)", "people[1].name"}, {"nested[]", "nested[0]"},
+		{"sort_by(nested, &@[0])", "nested[0][0]"}, {"to_array(o)", "o.a"}, {"not_null(people, nums)", "people[2]"},
+		{"people[?k > `1`] | sort_by(@, &name)[*].k", "people[*].k"},
+	}
+	for _, pr := range pairs {
+		var jps [2]*jmespath.JMESPath
+		var want [2]string
+		ok := true
+		for k := 0; k < 2; k++ {
+			jp, err := jmespath.Compile(pr[k])
+			if err != nil {
+				ok = false
+				break
+			}
+			jps[k] = jp
+			want[k] = canon(obsOfSearchCompiled(jp, deepCopy(pristine)), false)
+		}
+		if !ok {
+			continue
+		}
+		r.mark("G-conc-shared", pr[0]+"  ||  "+pr[1], pristine)
+		var wg sync.WaitGroup
+		var mu sync.Mutex
+		bad := ""
+		for gi := 0; gi < goroutines; gi++ {
+			wg.Add(1)
+			go func(gi int) {
+				defer wg.Done()
+				for c := 0; c < calls; c++ {
+					k := (gi + c) % 2
+					if s := canon(obsOfSearchCompiled(jps[k], shared), false); s != want[k] {
+						mu.Lock()
+						if bad == "" {
+							bad = fmt.Sprintf("goroutine %d call %d, %s: got %s, alone it returns %s", gi, c, pr[k], s, want[k])
+						}
+						mu.Unlock()
+						return
+					}
+				}
+			}(gi)
+		}
+		wg.Wait()
+		if bad != "" {
+			r.violate("G-conc-shared", pr[0]+"  ||  "+pr[1], pristine, "a concurrent call returned something else than the same call made alone", bad)
+		}
+		if !jsonEqual(shared, pristine) {
+			r.violate("G-conc-shared", pr[0], pristine, "the shared document was modified by concurrent Search calls", "")
+			shared = deepCopy(pristine)
+		}
+		r.count("conc:shared-pairs")
+		r.addSearch("G-conc-shared", pr[0], deepCopy(pristine), modeFor(pr[0], pristine))
+	}
 }
 
 // ---- C19 ----
